@@ -578,6 +578,17 @@ def explore(ctx):
     # 0. the hypotheses of the theorem, on the real key functions
     check_key_laws(res)
 
+    # 0'. the two witnesses showing why the property restricts itself (theorems write_once_needed, contains_observes_memo):
+    #     outside the property, so recorded only — never an alarm (a TypeContext that did not memoise would not show them)
+    W = {"stale-memo-after-reinsert": [["ins", ["base", "int"], 1], ["item", ["nt", "int"]], ["ins", ["base", "int"], 2], ["item", ["nt", "int"]]],
+         "in-sees-memoised-alias": [["ins", ["base", "int"], 1], ["item", ["nt", "int"]], ["in", ["nt", "int"]]],
+         "in-before-lookup": [["ins", ["base", "int"], 1], ["in", ["nt", "int"]]]}
+    wm = lean.drive([{"op": "ctx.run", "ops": ops} for ops in W.values()])
+    for (name, ops), m in zip(W.items(), wm):
+        r = real_run(ops)
+        res.count(f"outside-property:{name}:" + ("real=model" if r == m.get("concrete") else "real!=model")
+                  + ("" if r != oracle_run(ops)[0] else "(=reference)"))
+
     # 1. bounded-exhaustive enumeration
     jobs = []
     for b in BASES:
